@@ -148,7 +148,6 @@ struct Case {
     src: String,
     n_workers: usize,
     quantum: Option<usize>,
-    case_no: u64,
 }
 
 struct Outcome {
@@ -164,20 +163,28 @@ struct Outcome {
     execs: usize,
     f10: usize,
     result: String,
+    results: Vec<String>,
     rejected_by_compiler: Option<String>,
     counters: Vec<String>,
 }
 
 /// Processes whose body has finished: `result` is set (a process that received an error completion
-/// has its result set at once; the worker reports it from then on). The persistent REPL process 0
-/// starts out sleeping with a result: it counts only once its ResumeProcess has been consumed.
+/// has its result set at once; the worker reports it from then on). A *persistent* process (the
+/// REPL's process 0) is alive as long as the session lasts — it sleeps between lines and is resumed
+/// by the next one — so it counts as terminated only once it has failed.
 fn terminated_now(sim: &Sim) -> BTreeSet<ProcessId> {
-    let resume_pending = sim.chans.iter().any(|s| {
-        s.chan.lock().unwrap().cmds.iter().any(|c| matches!(c, Command::ResumeProcess { .. } | Command::StartProcess { .. }))
-    });
     sim.processes()
         .into_iter()
-        .filter(|(p, _, info)| info.result.is_some() && (*p != 0 || !resume_pending))
+        .filter(|(_, _, info)| if info.persistent { matches!(info.result, Some(Err(_))) } else { info.result.is_some() })
+        .map(|(p, _, _)| p)
+        .collect()
+}
+
+/// Persistent processes that are asleep (successful result, waiting to be resumed): alive.
+fn sleeping_now(sim: &Sim) -> BTreeSet<ProcessId> {
+    sim.processes()
+        .into_iter()
+        .filter(|(_, _, info)| info.persistent && matches!(info.result, Some(Ok(_))))
         .map(|(p, _, _)| p)
         .collect()
 }
@@ -195,6 +202,7 @@ fn run_case(c: &Case, r: &mut Rng, model: &mut Model) -> Outcome {
         execs: 0,
         f10: 0,
         result: String::new(),
+        results: vec![],
         rejected_by_compiler: None,
         counters: vec![],
     };
@@ -215,28 +223,31 @@ fn run_case(c: &Case, r: &mut Rng, model: &mut Model) -> Outcome {
     // Repl::new started the persistent process 0
     model.ask("start");
 
-    let req = match sim.submit(&c.src) {
+    let mut tr = Tracker::default();
+    let mut term_told: BTreeSet<ProcessId> = BTreeSet::new();
+    // REPL process 0 is "Sleeping" (terminated in our sense) until it is resumed: the resume command
+    // has been queued by submit; tell the model only about terminations seen after a worker step.
+    let mut result: Option<String>;
+    let mut env_step_no = 0usize;
+    let mut idle_rounds;
+    let max_steps = 6000;
+    let mut forced: Vec<Choice> = vec![];
+
+    let lines: Vec<String> = c.src.split("\n----\n").map(|l| l.to_string()).collect();
+    for (line_no, line) in lines.iter().enumerate() {
+    let req = match sim.submit(line) {
         Ok(Some(id)) => id,
         Ok(None) => {
             out.rejected_by_compiler = Some("nocode".into());
             return out;
         }
         Err(e) => {
-            out.rejected_by_compiler = Some(format!("{e:?}"));
+            out.rejected_by_compiler = Some(format!("line {line_no}: {e:?}"));
             return out;
         }
     };
-
-    let mut tr = Tracker::default();
-    let mut term_told: BTreeSet<ProcessId> = BTreeSet::new();
-    // REPL process 0 is "Sleeping" (terminated in our sense) until it is resumed: the resume command
-    // has been queued by submit; tell the model only about terminations seen after a worker step.
-    let mut result: Option<String> = None;
-    let mut env_step_no = 0usize;
-    let mut idle_rounds = 0;
-    let max_steps = 6000;
-    let mut forced: Vec<Choice> = vec![];
-
+    result = None;
+    idle_rounds = 0;
     for _ in 0..max_steps {
         if result.is_none()
             && let Some(rr) = sim.poll_result(req)
@@ -299,6 +310,7 @@ fn run_case(c: &Case, r: &mut Rng, model: &mut Model) -> Outcome {
                     st.release = if n > 0 && r.chance(1, 3) { Some(r.usize(n + 1)) } else { None };
                 }
                 let term_before = terminated_now(&sim);
+                let sleeping = sleeping_now(&sim);
                 let step_out = sim.step(choice.clone());
                 if !matches!(step_out, StepOutcome::Ok(_)) {
                     out.problems.push(("env=step-error".into(), format!("{step_out:?}"), true));
@@ -313,12 +325,14 @@ fn run_case(c: &Case, r: &mut Rng, model: &mut Model) -> Outcome {
                     }
                 }
                 cmds.sort_by_key(|x| x.0);
-                check_env_step(c, &events, &calls, &cmds, &term_before, env_step_no, &sh, &mut tr, model, &mut out);
+                check_env_step(c, &events, &calls, &cmds, &term_before, &sleeping, env_step_no, &sh, &mut tr, model, &mut out);
             }
         }
     }
+    out.results.push(result.clone().unwrap_or_else(|| "no-result".into()));
+    }
     out.schedule = sim.render_schedule();
-    out.result = result.clone().unwrap_or_else(|| "no-result".into());
+    out.result = out.results.join(" ; ");
     for (idx, who, msg) in &sim.faults {
         out.problems.push(("sim=fault".into(), format!("step {idx} {who}: {msg}"), true));
     }
@@ -395,6 +409,7 @@ fn check_env_step(
     calls: &[Call],
     cmds: &[(u64, usize, Command<E>)],
     term_before: &BTreeSet<ProcessId>,
+    sleeping: &BTreeSet<ProcessId>,
     step_no: usize,
     sh: &BShared,
     tr: &mut Tracker,
@@ -484,7 +499,11 @@ fn check_env_step(
             return;
         }
         let f = fields(a);
-        if f.get("wf").map(|s| s.as_str()) != Some("1") {
+        let sleeping_report = l.starts_with("results ") && sleeping.iter().any(|p| l.contains(&format!("({p} 1)")));
+        if f.get("wf").map(|s| s.as_str()) != Some("1") && sleeping_report {
+            // the workers break `livenessOk` here: reported below as close=sleeping-persistent-owner
+            out.counters.push("assumption:livenessOk-broken-by-sleeping-process-report".into());
+        } else if f.get("wf").map(|s| s.as_str()) != Some("1") {
             out.problems.push((
                 "assumption=event-not-well-formed".into(),
                 format!("the model's eventOk is false for `{l}`: a worker emitted an event the theorems' hypotheses exclude (forged handle / action by a finished process / report before termination)"),
@@ -740,7 +759,9 @@ fn check_env_step(
                 }
                 for p in &reported {
                     tr.reported.entry(*p).or_insert(step_no);
-                    if !term_before.contains(p) {
+                    if sleeping.contains(p) {
+                        out.counters.push("report:sleeping-persistent-process".into());
+                    } else if !term_before.contains(p) {
                         out.problems.push((
                             "report=before-termination".into(),
                             format!("process {p} reported complete but it had not terminated before this environment step"),
@@ -768,6 +789,14 @@ fn check_env_step(
                     out.closes += 1;
                     let o = tr.owner.get(&rid).copied();
                     if let Some(o) = o
+                        && sleeping.contains(&o)
+                    {
+                        out.problems.push((
+                            "close=sleeping-persistent-owner".into(),
+                            format!("close_resource({rid}) while its owner, the persistent process {o}, is alive (asleep between two lines of the session): a process awaited it, the worker reported its last line's result as a completion"),
+                            true,
+                        ));
+                    } else if let Some(o) = o
                         && !term_before.contains(&o)
                     {
                         out.problems.push((
@@ -783,7 +812,7 @@ fn check_env_step(
                         *tr.effective_closes.entry(rid).or_insert(0) += 1;
                         out.counters.push("close:cleanup-effective".into());
                     } else {
-                        out.counters.push("close:cleanup-noop(already closed explicitly)".into());
+                        out.counters.push("close:cleanup-noop(already closed)".into());
                     }
                     tr.owner.remove(&rid);
                     tr.cleaned.insert(rid);
@@ -833,8 +862,39 @@ fn sh_was_open(calls: &[Call], ci: usize, rid: ResourceId, sh: &BShared) -> bool
     })
 }
 
+/// `c14 --probe LINE1 LINE2 …`: evaluate lines one after the other in ONE REPL session on the fake
+/// backend with fair scheduling, print the backend calls (exploration aid, not part of the check).
+fn probe(lines: &[String]) {
+    let mut b = qverif::run::builtins();
+    quiver_io::attach_network_builtins(&mut b);
+    quiver_io::attach_file_builtins(&mut b);
+    let mut sim = Sim::new(2, None, b, true);
+    let sh = BShared::new();
+    sim.env.set_effect_backend(Box::new(FakeBackend(sh.clone())));
+    let mut sim = sim.with_repl(HashMap::new());
+    for l in lines {
+        let out = eval_in(&mut sim, l, None, 3000);
+        for _ in 0..6 {
+            sim.fair_round();
+        }
+        println!("{l}\n  => {}", out.render());
+        for c in sh.lock().calls.drain(..) {
+            println!("     {c:?}");
+        }
+        println!("     open = {:?}", sh.lock().open);
+        for (pid, w, info) in sim.processes() {
+            println!("     pid {pid} w{w} {:?}", info.status);
+        }
+    }
+}
+
 fn main() {
     qverif::quiet_panics();
+    let args: Vec<String> = std::env::args().collect();
+    if args.get(1).map(|s| s.as_str()) == Some("--probe") {
+        probe(&args[2..]);
+        return;
+    }
     let opts = Opts::parse();
     let mut ev = Ev::new("C14", &opts);
     ev.rule = "a case is one (generated program, worker count, quantum, random schedule); non-trivial = the environment handled at least one ownership transfer and one effect on a resource, and at least two processes ran; distinct by (program, schedule)".into();
@@ -843,8 +903,8 @@ fn main() {
 
     // ---- corpus: fixed programs first ----
     let mut programs: Vec<(String, String)> = corpus();
-    let n_gen = opts.tier.pick(260, 5000);
-    let schedules = opts.tier.pick(3, 12);
+    let n_gen = opts.tier.pick(1500, 30000);
+    let schedules = opts.tier.pick(3, 8);
     for i in 0..n_gen {
         let mut r = Rng::for_case(opts.seed ^ 0xC14, i as u64);
         let max_procs = 2 + r.usize(5);
@@ -865,7 +925,7 @@ fn main() {
             let mut r = Rng::for_case(opts.seed ^ 0x5C4ED, case_no);
             let n_workers = 1 + r.usize(4);
             let quantum = *r.pick(&[Some(1usize), Some(3), Some(17), None]);
-            let c = Case { src: src.clone(), n_workers, quantum, case_no };
+            let c = Case { src: src.clone(), n_workers, quantum };
             let o = match qverif::catch(|| run_case(&c, &mut r, &mut model)) {
                 Ok(o) => o,
                 Err(p) => {
